@@ -10,7 +10,8 @@ RefFactory = Callable[[str], str]
 def ref_prefix(prefix: str) -> RefFactory:
     if not prefix.endswith("/"):
         prefix += "/"
-    return lambda ref: prefix + ref
+    # JSON pointer escaping of the definition name (RFC 6901)
+    return lambda ref: prefix + ref.replace("~", "~0").replace("/", "~1")
 
 
 def isolate_ref(schema: Dict[str, Any]):
